@@ -113,7 +113,14 @@ ARBITRARY = st.one_of(
                      "<a><b></a></b>", "\x00", "<odML version='1.1'>\x00</odML>", "<!DOCTYPE odML><odML version='1.1'/>",
                      "<odML version='1.1'><!-- c --></odML>", "<odML version='1.1'><?pi x?></odML>",
                      "<odML xmlns='urn:x' version='1.1'/>", "﻿<odML version='1.1'/>",
-                     "<odML version='1.1'>&undefined;</odML>", "{\"Document\": {}}", "Document:\n  a: b\n"]),
+                     "<odML version='1.1'>&undefined;</odML>", "{\"Document\": {}}", "Document:\n  a: b\n",
+                     "<?xml version=\"1.0\" encoding=\"UTF-8\"><odML version=\"1.1\"/>",
+                     "<?xml version=\"1.0\" encoding=\"UTF->8\"?><odML version=\"1.1\"/>",
+                     "<?xml version=\"1.0\" encoding=\"UTF-8\"", "<?xml encoding='x'",
+                     "  <?xml version=\"1.0\" encoding=\"UTF-8\"?>\n<odML version=\"1.1\"/>",
+                     "<?xml version=\"1.0\" encoding=\"ISO-8859-1\"?><odML version=\"1.1\"><author>\u00e4</author></odML>",
+                     "<odML version='1.1'><section><name>a</name><type>t</type>"
+                     "<sec_cardinality>(\u00b2,3)</sec_cardinality></section></odML>"]),
 )
 
 
@@ -292,15 +299,24 @@ def grammar_case(draw):
                                  '<!DOCTYPE odML [ <!ENTITY e "ent"> ]>\n']))
     text = "%s<%s %s>%s</%s>" % (head, root, version, "".join(children), root)
     return {"text": text, "root": root, "version": version, "markers": markers, "faults": sorted(set(faults)),
-            "lenient": draw(st.booleans()), "entry": draw(st.sampled_from(["string", "file", "odmlreader", "load"]))}
+            "lenient": draw(st.booleans()), "entry": draw(st.sampled_from(["string", "file", "odmlreader", "load"])),
+            "file_encoding": draw(st.sampled_from(["utf-8", "utf-8", "iso-8859-1", "utf-16"]))}
 
 
-def read_xml(text, lenient, entry, d):
+def read_xml(text, lenient, entry, d, file_encoding="utf-8"):
     if entry == "string":
         return XMLReader(ignore_errors=lenient, show_warnings=False).from_string(text)
     path = os.path.join(d, "in.xml")
-    with open(path, "w", encoding="utf-8", newline="") as fh:
-        fh.write(text)
+    if file_encoding != "utf-8" and not text.startswith("<?xml") and not text.startswith("<!DOCTYPE"):
+        # a file in another encoding, correctly declared, with a character outside ASCII
+        text = '<?xml version="1.0" encoding="%s"?>\n' % file_encoding.upper() + \
+            text.replace("</type>", "\u00e4</type>", 1)
+        with open(path, "wb") as fh:
+            fh.write(text.encode(file_encoding))
+        file_encoding = None
+    if file_encoding is not None:
+        with open(path, "w", encoding="utf-8", newline="") as fh:
+            fh.write(text)
     if entry == "file":
         return XMLReader(ignore_errors=lenient, show_warnings=False).from_file(path)
     if entry == "odmlreader":
@@ -326,8 +342,9 @@ def grammar_body(case):
     try:
         wf = wellformed_current(text)
         str_with_decl = entry == "string" and "encoding=" in text.split("\n")[0]
-        res, exc = guarded(lambda: read_xml(text, lenient, entry, d))
+        res, exc = guarded(lambda: read_xml(text, lenient, entry, d, case.get("file_encoding", "utf-8")))
         loc = dict(gen="grammar", lenient=lenient, entry=entry, faults=case["faults"],
+                   file_encoding=case.get("file_encoding", "utf-8"),
                    str_with_encoding_declaration=str_with_decl)
         doc = judge(res, exc, "XML %s %s" % ("lenient" if lenient else "strict", entry), fails,
                     lenient_must_succeed=bool(lenient and wf), **loc)
